@@ -72,6 +72,7 @@ func c02Aux(prev string, tr Trans, res *StepResult) string {
 	if n > m[target] {
 		m[target] = n
 	}
+	m[fmt.Sprintf("sent:%s:%d", target, n)] = 1
 	keys := make([]string, 0, len(m))
 	for k := range m {
 		keys = append(keys, k)
@@ -124,6 +125,21 @@ func c02Monitor(vf, vt *StoreView, auxBefore string, tr Trans, res *StepResult) 
 			if !ok {
 				return "merge-out-of-order", fmt.Sprintf("%s changes the stored values of %s (%q -> %q) with committed index %d -> %d", tr.String(), ct.TargetID, cfgValuesText(cf), cfgValuesText(ct), fromCommitted, ct.Status.Committed.Index)
 			}
+		}
+	}
+	// a proposal is only ever recorded as applied after its change was sent to the device (scenarios without a prefix:
+	// every request the device ever got is in the path's memory)
+	auxAfter := c02Aux(auxBefore, tr, res)
+	for id, p := range vt.Props {
+		if p.Status.Phases.Apply == nil || p.Status.Phases.Apply.State != configapi.ProposalApplyPhase_APPLIED {
+			continue
+		}
+		if q := vf.Props[id]; q != nil && q.Status.Phases.Apply != nil && q.Status.Phases.Apply.State == configapi.ProposalApplyPhase_APPLIED {
+			continue
+		}
+		target, n := proposalIndex(string(id))
+		if auxGet(auxAfter, fmt.Sprintf("sent:%s:%d", target, n)) == 0 {
+			return "applied-without-being-sent", fmt.Sprintf("%s records transaction %d as applied on %s, but no request for it was ever sent to the device", tr.String(), n, target)
 		}
 	}
 	// (the conditions below only ever become true – phases and cursors move forward – so judging the second half of a
